@@ -55,7 +55,7 @@ def kinds_of(rec, m, rid, label, ok0):
         return label.split('+')
     return ['lex:' + NAMES[rid]]
 
-def validate(rep, path, label, chunk=50000):
+def validate(rep, path, label, chunk=30000, par=4):
     """TVLexer over a record file (chunked, <=4 TLC processes x 4 workers); classify mismatches."""
     lines = open(path).read().splitlines()
     n = len(lines)
@@ -71,7 +71,7 @@ def validate(rep, path, label, chunk=50000):
         os.unlink(p)
         return i, r
     mism = 0
-    with concurrent.futures.ThreadPoolExecutor(max_workers=4) as ex:
+    with concurrent.futures.ThreadPoolExecutor(max_workers=par) as ex:
         for i, r in ex.map(one, range(len(chunks))):
             rep.add_tlc('TVLexer:%s:%d' % (label, i), r, 'validation of recorded recogniser results against ScpiLexer')
             if r.distinct != len(chunks[i]) and not r.errors:
@@ -120,21 +120,18 @@ def run(pid, tier):
     q = tier == 'quick'
     w = lib.workdir(pid)
     exe = lib.build('drv_lexer', ['drv_lexer.c'])
-    # ---- M: model checking of the specification
+    # ---- M: model checking of the specification (runs beside the V pipeline)
     def mc(a):
         name, nq, nt = a
         return name, lib.tlc('MCLexer', 'MCLexer_%s_%s.cfg' % (name, tier), workers=4, timeout=850, xmx='3g')
-    with concurrent.futures.ThreadPoolExecutor(max_workers=4) as ex:
-        for name, r in ex.map(mc, MC):
-            rep.add_tlc('MCLexer_' + name, r, 'model checking of ScpiLexer: recogniser = longest prefix of its grammar, cursor/extent bounds, exclusive alternatives, unit grammar')
-            if r.violations:
-                rep.broken.append('ScpiLexer violates its own lemma in MCLexer_%s: %s' % (name, r.violations))
+    mcpool = concurrent.futures.ThreadPoolExecutor(max_workers=2)
+    mcjobs = [mcpool.submit(mc, a) for a in sorted(MC, key=lambda a: -a[1 if q else 2])]
     # ---- plan
     longs = gen_long(rep, w, tier)
     plan = []
     for name, alpha, nq, nt, ids in GROUPS:
         plan.append((name, 'enum', alpha, 0, nq if q else nt, ids, 0, '-'))
-    nrand = 1500 if q else 20000
+    nrand = 1000 if q else 20000
     for name, alpha, nq, nt, ids in GROUPS:
         n = nq if q else nt
         plan.append(('r' + name, 'rand', alpha, n + 1, n + 8, ids, nrand, '-'))
@@ -166,7 +163,13 @@ def run(pid, tier):
             with open(p) as f:
                 shutil.copyfileobj(f, o)
             os.unlink(p)
-    validate(rep, w + '/all.ndjson', 'records')
+    validate(rep, w + '/all.ndjson', 'records', par=3)
+    for j in mcjobs:
+        name, r = j.result()
+        rep.add_tlc('MCLexer_' + name, r, 'model checking of ScpiLexer: recogniser = longest prefix of its grammar, cursor/extent bounds, exclusive alternatives, unit grammar')
+        if r.violations:
+            rep.broken.append('ScpiLexer violates its own lemma in MCLexer_%s: %s' % (name, r.violations))
+    mcpool.shutdown()
     with open(w + '/all.ndjson') as f:
         for i, ln in enumerate(f):
             if i in (700, 40000, 90000):
